@@ -99,6 +99,21 @@ def gen_history(rng, targets, cfg_keys, tier):
                     hist.append(H.rand_config_event(rng, cfg_keys))
                 hist.append({"ev": "build", "var": v})
                 hist.append(dict({"ev": "compute_many", "vars": [o, v]}, **H.rand_sched(rng)))
+        elif r < 0.49 and built:
+            # ship: dump a collection, let go of everything alive, collect, change the configuration, load
+            k[0] += 1
+            o = f"l{k[0]}"
+            hist.append({"ev": "dump", "var": rng.choice(live), "slot": o})
+            for w in list(built) + list(extra):
+                hist.append({"ev": "drop", "var": w})
+            del built[:]
+            del extra[:]
+            hist.append({"ev": "gc"})
+            if rng.random() < 0.8:
+                hist.append({"ev": "config", "key": "array.chunk-size", "value": rng.choice(H.CONFIG_DOMAIN["array.chunk-size"])})
+            hist.append({"ev": "load", "slot": o, "out": o})
+            extra.append(o)
+            hist.append(dict({"ev": "compute", "var": o}, **H.rand_sched(rng)))
         elif r < 0.52:
             k[0] += 1
             o = f"u{k[0]}"
